@@ -29,7 +29,7 @@ var c10Universe = []string{"TestA - 1", "TestA - 2", "TestA - 10", "TestA/x - 1"
 
 var c10Bodies = []string{"a", "", "x\n\ny", "---", "[TestA - 1]", "\n", "/-/-/-/", " ", "b\n", "[TestB - 1]\nz", "\xff", "$1%d", "k:\n[TestQ - 7]\nv", "before\n--- \nafter", "head\n\n[TestA - 1]\ntail", "100% done %s\n%!d(MISSING)", c10Big, c10Long, c10Huge,
 	// bracketed lines that are NOT entry headers (no ` - `, no number, trailing text)
-	"[draft]\n[a - b]\n[TestA - 1x]\n[TestA - ]\n[ - 1]", "[]\n[TestA-1]\n[TestA - 1] x"}
+	"HTTP/1.1 200 OK\r\nHost: x\r\n\r\nbody", "[draft]\n[a - b]\n[TestA - 1x]\n[TestA - ]\n[ - 1]", "[]\n[TestA-1]\n[TestA - 1] x"}
 
 // c10Big: a body larger than any line buffer a reader might use (many lines, 6 KB)
 var c10Big = strings.Repeat("a line of the big body 0123456789\n", 180) + "end"
@@ -234,6 +234,9 @@ func c10Run(c *vfCtx, cs c10Case) {
 			class = "K2-header-line-in-body"
 		}
 		for i, co := range o.callObs {
+			if strings.Contains(co.Call.Val, "\r") {
+				continue // whether a value with CR LF line ends replays is the documented limitation; the differential below still applies
+			}
 			if co.Got != co.Want {
 				fail("before Clean: call %d (%q in %s) signalled %s, model %s", i+1, vfClip(co.Call.Val), co.Test, co.Got, co.Want)
 				return
@@ -259,10 +262,12 @@ func c10Run(c *vfCtx, cs c10Case) {
 			}
 			want = append(want, e)
 		}
+		// a CR before a line feed is not part of the replayed value (documented limitation): compared without it
+		nocr := func(s string) string { return strings.TrimSuffix(strings.ReplaceAll(s, "\r\n", "\n"), "\r") }
 		mk := func(es []vfEntry) string {
 			var s []string
 			for _, e := range es {
-				s = append(s, e.ID+"\x00"+e.Body)
+				s = append(s, e.ID+"\x00"+nocr(e.Body))
 			}
 			sort.Strings(s)
 			return strings.Join(s, "\x01")
@@ -307,12 +312,22 @@ func c10Run(c *vfCtx, cs c10Case) {
 			if totalOrder {
 				if sortedBytes == nil {
 					sortedBytes, sortedFrom = o.after["f.snap"].Data, fmt.Sprint(c05IDs(es))
-				} else if string(sortedBytes) != string(o.after["f.snap"].Data) {
+				} else if nocr(string(sortedBytes)) != nocr(string(o.after["f.snap"].Data)) {
 					fail("sorted result depends on the initial order: %q here, %q from initial order %s", vfClip(string(o.after["f.snap"].Data)), vfClip(string(sortedBytes)), sortedFrom)
 					return
 				}
 			}
-		} else if !vfEntriesEqual(post, want) {
+		} else if !func() bool {
+			if len(post) != len(want) {
+				return false
+			}
+			for i := range post {
+				if post[i].ID != want[i].ID || nocr(post[i].Body) != nocr(want[i].Body) {
+					return false
+				}
+			}
+			return true
+		}() {
 			fail("sorting not requested/allowed, yet surviving entries were reordered: %v", c05IDs(post))
 			return
 		}
